@@ -55,6 +55,11 @@ CHECKS = {
         "Exploration: every token string up to 4-5 tokens (every sentence followed by every continuation, incl. junk) is parsed with consume_input=False; the set of trees expanded from the GLR forest must equal the union over all sentence prefixes of the reference derivations (each once) and SyntaxError is allowed only when no prefix is a sentence; the LR result must be a derivation of a prefix that is a sentence.",
         "Trusted: pv/ref_chart.py. Known findings: D10 (lexical_disambiguation=True drops STOP; pinned by the suite) tolerated only for prefixes followed by a token; D1/D2 by their signatures.",
         "DESIGN.md section 6/C17"),
+    "C09": (
+        "differential PBT across the evaluation routes (on the fly, build_tree+call_actions, GLR+call_actions lazy/non-lazy/first tree) and against a reference evaluator applied to the derivation the LR parser built; generated action tables, named matches and repetition sugar",
+        "Exploration: generated grammars decorated with * + ? (with and without separators), named matches = and ?= at generated positions and an action table (none | one callable | per-alternative list; terminal actions); every accepted token string up to 4-5 tokens is evaluated by all routes with tagging actions that expose argument order, alternative index and bindings; all results must equal the reference evaluation of the built tree; without user actions the nested-list default (single-child unpacking, obj for rules with named matches, documented results of +,*,?) is checked the same way.",
+        "Trusted: reference evaluator in pv/props/c09.py (docs/actions.md, docs/grammar_language.md). Which derivation a prefer-shifts LR parser commits to is not this property's subject: the reference evaluates the tree the parser built.",
+        "DESIGN.md section 6/C09"),
     "C10": (
         "differential PBT: error type/position/line/column/EOF message/expected set of GLR and LR vs Earley prefix analysis; text, multi-character, list-input and overlapping lexicons",
         "Exploration: every non-sentence among all token strings up to 4-5 tokens (with junk characters, the empty input, multi-line and trailing layout, list inputs with custom recognizers) must be rejected with exactly parglare.SyntaxError at the reference position by GLR (LALR and SLR) and by deterministic LR parsers; line/column must agree with the public pos_to_line_col and a constant column base; the EOF wording, rendering without exceptions and the exact GLR expected-terminal set are checked; LR with resolved conflicts may only raise SyntaxError or a DisambiguationError located at the ambiguous tokens.",
